@@ -279,9 +279,15 @@ def make_spec(g, allow=()):
     k = r.random()
     crlf = r.choice(suites.CRLF_MODES) if k < 0.15 and not ends else None
     gaps = 0.15 <= k < 0.27 and not ends
+    stale_files = r.sample(['old_test.snap', 'x.snapshot', 'gone_1.snap', 'a.snap.json'], r.choice([0, 0, 1, 2]))
+    ascii_skipped = [n for n in skipped if all(32 < b < 127 and b != 37 for b in n)]
+    if ascii_skipped and r.random() < 0.6:
+        # a stale standalone snapshot of some OTHER test whose name merely starts with a skipped test's name
+        # (`TestUser` is skipped, `TestUser_profile` is gone): it is stale like any other left-over file
+        stale_files.append(r.choice(ascii_skipped).decode().replace('/', '_') + r.choice(['_profile_2.snap', 'Extra_1.snap', '_1.snap.bak.snap']))
     return dict(cfgs=cfgs, nfiles=nfiles, tests=tests, stale=stale, skipped=skipped, ends=ends, fresh=fresh, sa=sa, badcall=sorted(badcall), crlf=crlf, gaps=gaps,
                 count=r.choice([1, 1, 2, 3]), shuffle=r.randrange(1 << 30),
-                stale_files=r.sample(['old_test.snap', 'x.snapshot', 'gone_1.snap', 'a.snap.json'], r.choice([0, 0, 1, 2])),
+                stale_files=stale_files,
                 decoys=r.random() < 0.6,
                 mode=r.choice([(False, ''), (False, 'clean'), (False, 'true'), (True, 'clean'), (False, 'other')]),
                 sort=r.choice(['-', '1', '1', '1'] if ('ends' in allow or 'big' in allow) else ['-', '0', '1', '1']), flags=set())
